@@ -107,6 +107,17 @@ CHECKS = {
         note="Annotation equality is by repr of the resolved hint; Protocol stubs for streaming operations may be plain functions returning AsyncIterator; packages outside the C01/C03/C07-clean domain are not generated.",
         design="§5 C13",
     ),
+    "C14": dict(
+        category="exploration",
+        technique="dedicated Hypothesis union strategy (2..4 variants; object variants with disjoint/overlapping/nested/all-optional/identical field sets, scalars, arrays, maps, nullable; discriminator none/explicit/implicit/partial; all variant orders; tricky variant names) through generate_client; payloads conforming to a chosen variant decoded through the alias, a holder field and an array; round-trip equality against the variant's own schema + class / error checks for discriminated unions",
+        text="~17 000 (union, place, payload) decodings per quick run. A payload generated from variant i must re-encode to itself "
+             "(no key dropped by matching another variant); with an explicit mapping the class must be the mapped one, an unmapped "
+             "value must be rejected and a mapped-but-undecodable payload must raise. One root cause repaired (mapping imported "
+             "variants under wrong module/class names), 3 open findings (first-match ambiguity, discriminator without mapping "
+             "ignored, coercing scalar/container variants) excluded by construction with counts.",
+        note="Clean domain: without a usable discriminator every object variant has a distinguishing required field and at most one non-object variant is present; unions nested inside unions are not generated.",
+        design="§5 C14",
+    ),
     "C16": dict(
         category="exploration",
         technique="Hypothesis-built dataclass type trees (make_dataclass, random bijective Meta key maps) x conforming JSON; round-trip laws both directions, differential against a fresh copy of the module (history independence), corrupted-leaf error reporting, serialiser on generated instance graphs (chain/self-loop/ring/diamond/random; two annotation styles) against an independent reference",
